@@ -157,6 +157,7 @@ fn gen(rng: &mut Rng, _idx: u64, tier: Tier) -> Case {
         if i != j { let mut l = lines.remove(i); l.2 = format!("{}:reorder", l.2.split(':').next().unwrap_or("")); lines.insert(j, l); }
     }
     gen::clock_steps_back(rng, &mut lines, 0.06);
+    gen::long_uptime(rng, &mut lines, 0.03);
     let ops = gen::ops_of(rng, lines, Chunking::Line);
     let mut script = Script::file(args, ops);
     script.tcp = rng.chance(0.15);
